@@ -797,6 +797,120 @@ func checkC16(p *Prog, r *Report) {
 		})
 		r.Check(usesAll && key && val && !skips, "marshalExtensions writes every extension (TCP type included) as key and value", p.Pos(f.Body.Pos()), "ranges over Extensions(), writes Key and Value, skips none", fmt.Sprintf("uses Extensions()=%v key=%v value=%v skips elements=%v", usesAll, key, val, skips))
 	}
+	// ---- R16.6 extension comparison keeps multiplicities on both sides -------------------------------------
+	r.Rule("R16.6", "extensionsEqual summarises both extension lists with multiplicities (each side's elements are counted into an integer-valued map) before comparing: a one-sided membership test is neither symmetric nor a multiset comparison. A differently shaped implementation is reported as undecided.", 1)
+	if f := p.Fn("candidateBase.extensionsEqual"); r.Anchor("candidateBase.extensionsEqual", f != nil) {
+		sides := map[string]types.Object{"other": p.paramObj(f, 0)}
+		sides["own"] = p.localByDef(f, func(rhs ast.Expr) bool {
+			c, ok := unparen(rhs).(*ast.CallExpr)
+			return ok && strings.HasSuffix(p.CalleeName(c), ".Extensions")
+		})
+		// range value variables per side
+		elemOf := map[types.Object]string{}
+		walkBody(f, func(n ast.Node) bool {
+			if rs, ok := n.(*ast.RangeStmt); ok && rs.Value != nil {
+				for name, o := range sides {
+					if p.isObj(rs.X, o) {
+						if id, ok := rs.Value.(*ast.Ident); ok {
+							elemOf[p.ObjOf(id)] = name
+						}
+					}
+				}
+			}
+			return true
+		})
+		counted := map[string]bool{}
+		note := func(lhs ast.Expr) {
+			ix, ok := unparen(lhs).(*ast.IndexExpr)
+			if !ok {
+				return
+			}
+			mt, ok := p.TypeOf(ix.X).Underlying().(*types.Map)
+			if !ok {
+				return
+			}
+			if b, ok := mt.Elem().Underlying().(*types.Basic); !ok || b.Info()&types.IsInteger == 0 {
+				return
+			}
+			ast.Inspect(ix.Index, func(x ast.Node) bool {
+				if id, ok := x.(*ast.Ident); ok {
+					for name, o := range sides {
+						if p.ObjOf(id) == o {
+							counted[name] = true
+						}
+					}
+					if name, ok := elemOf[p.ObjOf(id)]; ok {
+						counted[name] = true
+					}
+				}
+				return true
+			})
+		}
+		walkBody(f, func(n ast.Node) bool {
+			switch x := n.(type) {
+			case *ast.IncDecStmt:
+				note(x.X)
+			case *ast.AssignStmt:
+				if x.Tok == token.ADD_ASSIGN || x.Tok == token.SUB_ASSIGN {
+					for _, l := range x.Lhs {
+						note(l)
+					}
+				}
+			}
+			return true
+		})
+		if sides["own"] == nil || sides["other"] == nil {
+			r.Unknown("extensionsEqual counts both sides", p.Pos(f.Body.Pos()), "the two extension lists were not identified")
+		} else {
+			r.Check(counted["own"] && counted["other"], "extensionsEqual counts both sides", p.Pos(f.Body.Pos()), "own and other are both counted with multiplicities", fmt.Sprintf("elements counted: own=%v other=%v — a comparison that only tests membership of one side in the other is not symmetric (DeepEqual(a,b) != DeepEqual(b,a) for repeated extensions) and ignores multiplicities", counted["own"], counted["other"]))
+		}
+	}
+
+	// ---- R16.7 one notion of "the tcptype key" -----------------------------------------------------------
+	r.Rule("R16.7", "Every place that recognises the tcptype pseudo-extension compares the key in the same way (exactly): the parser must not accept spellings that the writer, AddExtension, GetExtension and RemoveExtension treat as ordinary extensions, or a candidate carrying such a key changes under Marshal/Unmarshal.", 4)
+	{
+		kinds := map[string][]string{}
+		for _, f := range p.AllFuncs {
+			if f.Pkg != p.Ice || f.Body == nil {
+				continue
+			}
+			walkBody(f, func(n ast.Node) bool {
+				switch x := n.(type) {
+				case *ast.BinaryExpr:
+					if x.Op == token.EQL || x.Op == token.NEQ {
+						for _, side := range []ast.Expr{x.X, x.Y} {
+							if v, ok := p.ConstVal(side); ok && v == `"tcptype"` {
+								other := x.X
+								if side == x.X {
+									other = x.Y
+								}
+								k := "exact"
+								if _, isCall := unparen(other).(*ast.CallExpr); isCall {
+									k = "transformed (" + stripVarLines(p.Canon(other)) + ")"
+								}
+								kinds[k] = append(kinds[k], f.Name+"@"+p.Pos(x.Pos()))
+							}
+						}
+					}
+				case *ast.CallExpr:
+					for _, a := range x.Args {
+						if v, ok := p.ConstVal(a); ok && v == `"tcptype"` && p.CalleeName(x) != "" && !strings.HasPrefix(p.CalleeName(x), "fmt.") {
+							kinds["via "+p.CalleeName(x)] = append(kinds["via "+p.CalleeName(x)], f.Name+"@"+p.Pos(x.Pos()))
+						}
+					}
+				}
+				return true
+			})
+		}
+		for k, sites := range kinds {
+			for _, st := range sites {
+				r.Check(k == "exact", "tcptype key test in "+st[:strings.Index(st, "@")], st[strings.Index(st, "@")+1:], "exact comparison", "the tcptype key is recognised "+k+" here but exactly elsewhere: a key spelled differently is a TCP type for one side of the codec and an ordinary extension for the other")
+			}
+		}
+		if len(kinds["exact"]) < 4 {
+			r.Fail("tcptype key tests", "candidate_base.go", "fewer exact tcptype comparisons than expected (rule instance lost)")
+		}
+	}
 	if f := p.Fn("readCandidateStringToken"); r.Anchor("readCandidateStringToken", f != nil) {
 		okAll, n := true, 0
 		walkBody(f, func(nd ast.Node) bool {
